@@ -48,35 +48,27 @@ func Send(rw io.ReadWriter, streamData *stream.Info, ws bool, version stream.Ver
 		return err
 	}
 
-	if id != "" {
-		_, err = fmt.Fprintf(b, " id='%s'", id)
+	// The addresses, the stream ID, and the language are not under our control
+	// (resourceparts for example may contain quotes, ampersands, and angle
+	// brackets), so they must be escaped to keep the header well-formed.
+	for _, attr := range []struct{ name, value string }{
+		{"id", id},
+		{"to", to},
+		{"from", from},
+		{"xml:lang", lang},
+	} {
+		if attr.value == "" {
+			continue
+		}
+		_, err = b.WriteString(" " + attr.name + "='")
 		if err != nil {
 			return err
 		}
-	}
-	if to != "" {
-		_, err = fmt.Fprintf(b, " to='%s'", to)
+		err = xml.EscapeText(b, []byte(attr.value))
 		if err != nil {
 			return err
 		}
-	}
-	if from != "" {
-		_, err = fmt.Fprintf(b, " from='%s'", from)
-		if err != nil {
-			return err
-		}
-	}
-
-	if len(lang) > 0 {
-		_, err = b.Write([]byte(" xml:lang='"))
-		if err != nil {
-			return err
-		}
-		err = xml.EscapeText(b, []byte(lang))
-		if err != nil {
-			return err
-		}
-		_, err = b.Write([]byte("'"))
+		_, err = b.WriteString("'")
 		if err != nil {
 			return err
 		}
